@@ -36,6 +36,17 @@ impl AttrStyle {
     }
 }
 
+/// An end tag `</tag>`; with `st.sep >= 2` it carries white space before `>` (`</tag\n>`, `</tag >`), which is legal
+/// XML (`ETag ::= '</' Name S? '>'`) although no office suite writes it.
+pub fn end_tag(tag: &str, st: AttrStyle) -> String {
+    let ws = match st.sep {
+        2 => "\n",
+        3 => " ",
+        _ => "",
+    };
+    format!("</{tag}{ws}>")
+}
+
 /// Write ` name="value"` for every attribute (`value` already escaped with `escape_attr`) in the given style.
 pub fn write_attrs(out: &mut String, attrs: &[(String, String)], st: AttrStyle) {
     let mut idx: Vec<usize> = (0..attrs.len()).collect();
@@ -340,7 +351,7 @@ impl OdsCell {
                 for p in paras {
                     body.push_str("<text:p>");
                     body.push_str(&paragraph_xml(p, self.text_s, self.attr_style));
-                    body.push_str("</text:p>");
+                    body.push_str(&end_tag("text:p", self.attr_style));
                 }
             }
             OdsVal::StrAttr(s) => {
@@ -387,9 +398,7 @@ impl OdsCell {
         } else {
             out.push('>');
             out.push_str(&body);
-            out.push_str("</");
-            out.push_str(tag);
-            out.push('>');
+            out.push_str(&end_tag(tag, self.attr_style));
         }
     }
 }
@@ -479,7 +488,7 @@ impl RowRun {
         for c in &self.cells {
             c.xml(out);
         }
-        out.push_str("</table:table-row>");
+        out.push_str(&end_tag("table:table-row", self.attr_style));
     }
 }
 
@@ -670,7 +679,7 @@ impl OdsBook {
                 x.push_str(&format!("</{}>", w.tag()));
             }
             x.push_str(&s.postlude);
-            x.push_str("</table:table>");
+            x.push_str(&end_tag("table:table", s.attr_style));
         }
         if !self.named_ranges.is_empty() {
             x.push_str("<table:named-expressions>");
